@@ -322,6 +322,69 @@ theorem meta_from_log_q_source_eq_model (w : List K) (rows : List (List K)) :
     Gen.MetaTx.compute_meta_proposal_from_log_q (PyDict.ofList (-1) w) rows = rows.map (mix w) := by
   simp [Gen.MetaTx.compute_meta_proposal_from_log_q]
 
+/-- what the three re-weighting statements do to ONE stored sample when the new column entry is `q` -/
+def updq (w : List K) (q : K) (m : MS K) : MS K :=
+  { m with row := m.row ++ [q], Q := mix w (m.row ++ [q]), W := m.U / mix w (m.row ++ [q]) }
+
+theorem reweight_core (w : List K) (ss : List (MS K)) (qs : List K) (hl : qs.length = ss.length) :
+    (List.zipWith (fun row c => row ++ [c]) (ss.map (·.row)) qs,
+     (List.zipWith (fun row c => row ++ [c]) (ss.map (·.row)) qs).map (mix w),
+     List.zipWith (· / ·) (ss.map (·.U)) ((List.zipWith (fun row c => row ++ [c]) (ss.map (·.row)) qs).map (mix w)))
+    = ((List.zipWith (updq w) qs ss).map (·.row), (List.zipWith (updq w) qs ss).map (·.Q),
+       (List.zipWith (updq w) qs ss).map (·.W)) := by
+  induction ss generalizing qs with
+  | nil => simp
+  | cons m ms ih =>
+    cases qs with
+    | nil => simp at hl
+    | cons q qs =>
+      have := ih qs (by simpa using hl)
+      simp only [Prod.mk.injEq] at this ⊢
+      obtain ⟨h1, h2, h3⟩ := this
+      refine ⟨?_, ?_, ?_⟩
+      · simp only [List.map_cons, List.zipWith_cons_cons, h1, updq]
+      · simp only [List.map_cons, List.zipWith_cons_cons, h2, updq]
+      · simp only [List.map_cons, List.zipWith_cons_cons, h3, updq]
+
+/-- the re-weighting sequence of `add_and_update_points` (`update_log_q`, then `logQ`, then `logW = logU − logQ`), run on the
+columns of a non-empty store whose rows lack exactly the current proposal's column, leaves in EVERY stored sample the row with the
+new density `q·j` appended, `Q = mix w row` under the current weights and `W = U / Q` -/
+theorem reweight_store_source_eq_model (w : List K) (ss : List (MS K)) (cq cj : List K)
+    (hq : cq.length = ss.length) (hj : cj.length = ss.length) (hne : ss ≠ [])
+    (hrow : ∀ m ∈ ss, m.row.length + 1 = w.length) :
+    Gen.MetaTx.reweight_store (PyDict.ofList (-1) w) w.length (ss.map (·.row)) (ss.map (·.U)) cq cj
+      = .ok ((List.zipWith (updq w) (List.zipWith (· * ·) cq cj) ss).map (·.row),
+             (List.zipWith (updq w) (List.zipWith (· * ·) cq cj) ss).map (·.Q),
+             (List.zipWith (updq w) (List.zipWith (· * ·) cq cj) ss).map (·.W)) := by
+  have hg : (Gen.MetaTx.shape1 (ss.map (·.row)) == w.length) = false := by
+    cases ss with
+    | nil => exact absurd rfl hne
+    | cons m ms =>
+      have := hrow m (by simp)
+      simp [Gen.MetaTx.shape1]; omega
+  have hl : (List.zipWith (· * ·) cq cj).length = ss.length := by simp [hq, hj]
+  unfold Gen.MetaTx.reweight_store Gen.MetaTx.update_log_q
+  rw [hg]
+  simp only [Bool.false_eq_true, if_false, Gen.MetaTx.compute_meta_proposal_from_log_q, PyDict.values_ofList]
+  exact congrArg Except.ok (reweight_core w ss _ hl)
+
+/-- … which is the model's `updateStore` (the store after `upd`) when the new column is the density table's -/
+theorem reweight_store_eq_updateStore (w : List K) (f : Nat → K) (ss : List (MS K)) :
+    List.zipWith (updq w) (ss.map (fun m => f m.id)) ss = ss.map (upd w f) := by
+  induction ss with
+  | nil => rfl
+  | cons m ms ih => simp [ih, updq, upd]
+
+/-- the error branch: a store whose rows already hold the current proposal's column is refused with `ValueError`
+(the model's `updateSample` returns `valueErr` for such a row) -/
+theorem reweight_store_source_already_updated (w : List K) (m : MS K) (ms : List (MS K)) (cq cj : List K)
+    (hrow : m.row.length = w.length) :
+    Gen.MetaTx.reweight_store (PyDict.ofList (-1) w) w.length ((m :: ms).map (·.row)) ((m :: ms).map (·.U)) cq cj
+      = .error .valueErr ∧ updateSample w (0 : K) m = .error .valueErr := by
+  constructor
+  · simp [Gen.MetaTx.reweight_store, Gen.MetaTx.update_log_q, Gen.MetaTx.shape1, hrow]
+  · simp [updateSample, hrow]
+
 /-- non-vacuity: registering proposal 0 with 2 new samples on top of 2 initial ones gives weights 1/2, 1/2 -/
 example : Gen.MetaTx.add_new_proposal_weight (PyDict.ofList (-1) [2]) (PyDict.ofList (-1) [(1 : Rat), 0]) 2 0 2
     = .ok ([(-1, 2), (0, 2)], [(-1, 1/2), (0, 1/2)]) := by decide +kernel
